@@ -156,12 +156,16 @@ def make_sed(pkg, n, unit=None):
         wav = np.array(_ord(list(reversed(pkg['wav'])), sd['order']))
         s.wav = wav * u.micron
         s.nu = s.wav.to(u.Hz, equivalencies=u.spectral())
+        if pkg.get('wav_file_unit'):                # the WAVELENGTH column of the file in another unit (the numbers chosen so that they stay exact)
+            s.wav = s.wav.to(u.Unit(pkg['wav_file_unit']))
         if pkg.get('wav_dtype') == 'float32':       # the spectral columns in single precision, as the package-format page prescribes ('E')
             s.wav, s.nu = s.wav.astype(np.float32), s.nu.astype(np.float32)
     else:
         nu = np.array(_ord(sd.get('nu', pkg['nu']), sd['order']))     # per-SED grid (per-file packages only) or the shared one
         s.nu = nu * u.Hz
         s.wav = s.nu.to(u.micron, equivalencies=u.spectral())
+        if pkg.get('nu_dtype') == 'float32':        # FREQUENCY in single precision (every frequency of the package is a single-precision number)
+            s.nu = s.nu.astype(np.float32)
     s.apertures = None if pkg['aps'] is None else np.array(pkg['aps']) * u.au
     sc = 2.0 ** pkg.get('flux_pow2', 0)
     s.flux = np.array([_ord(row, sd['order']) for row in sd['flux']]) * sc * u.Unit(unit)
